@@ -4,6 +4,7 @@ package layer2
 
 import (
 	"io"
+	"sync/atomic"
 	"net"
 	"time"
 
@@ -318,9 +319,16 @@ func VerifAnnounceSpam(n int) {
 	a.spamCh = make(chan IPAdvertisement)
 	go a.spamLoop()
 	done := make(chan struct{})
+	var stop atomic.Bool
 	go func() {
-		_ = a.GetStatus(types.NamespacedName{Namespace: "ns", Name: "s0"})
-		_ = a.AnnounceName("ns/s0")
+		// the status fetcher: once under the engine (every interleaving is explored), in a loop natively
+		for {
+			_ = a.GetStatus(types.NamespacedName{Namespace: "ns", Name: "s0"})
+			_ = a.AnnounceName("ns/s0")
+			if vr.Symbolic() || stop.Load() {
+				break
+			}
+		}
 		close(done)
 	}()
 	names := []string{"ns/s0", "ns/s1", "ns/s2"}
@@ -342,6 +350,7 @@ func VerifAnnounceSpam(n int) {
 			a.DeleteBalancer(names[0])
 		}
 	}
+	stop.Store(true)
 	<-done
 	vr.Yield()
 	vr.Reach("announcer handlers returned")
